@@ -3,6 +3,7 @@ package crypto
 
 import (
 	"encoding/hex"
+	"errors"
 	"fmt"
 
 	"github.com/jcmturner/gokrb5/v8/crypto/etype"
@@ -93,6 +94,9 @@ func GetKeyFromPassword(passwd string, cname types.PrincipalName, realm string, 
 			if err != nil {
 				return key, et, fmt.Errorf("error unmashaling PA Data to PA-ETYPE-INFO2: %v", err)
 			}
+			if len(eti) < 1 {
+				return key, et, errors.New("PA-ETYPE-INFO from the KDC does not contain any entry")
+			}
 			if etypeID != eti[0].EType {
 				et, err = GetEtype(eti[0].EType)
 				if err != nil {
@@ -108,6 +112,9 @@ func GetKeyFromPassword(passwd string, cname types.PrincipalName, realm string, 
 			err := et2.Unmarshal(pa.PADataValue)
 			if err != nil {
 				return key, et, fmt.Errorf("error unmashalling PA Data to PA-ETYPE-INFO2: %v", err)
+			}
+			if len(et2) < 1 {
+				return key, et, errors.New("PA-ETYPE-INFO2 from the KDC does not contain any entry")
 			}
 			if etypeID != et2[0].EType {
 				et, err = GetEtype(et2[0].EType)
